@@ -3,7 +3,7 @@
 
 use crate::common::*;
 use monitors::json::J;
-use refmodel::{canon, canon_strict, gen_val, hex, ref_decode, ref_encode, ref_encode_forms, with_transient_defaults, Ty, Val};
+use refmodel::{canon, canon_strict, gen_val, hex, ref_decode, ref_encode, ref_encode_forms, ref_encode_newer_tuples, with_transient_defaults, Ty, Val};
 use sbase::{dec_val, dec_val_rest, enc, Call, Sink, Subject};
 use std::any::Any;
 
@@ -39,6 +39,32 @@ pub fn encode_case(acc: &mut Acc, s: &dyn Subject, v: &Val) -> Option<(Box<dyn A
             acc.count(&format!("unencodable:{}", other.class()));
             None
         }
+    }
+}
+
+/// the reference encoding of `v` in which some tuple positions (map entries included) come from a writer one to three
+/// evolution steps ahead: version byte n, a header, chunk 0 with the elements, then chunks this reader knows nothing about
+fn newer_tuple_encoding(ctx: &Ctx, tag: u64, id: &str, idx: u64, ty: &Ty, v: &Val) -> Option<Vec<u8>> {
+    if !ty.any(&mut |t| matches!(t, Ty::Tuple(_) | Ty::Map(_, _)), &mut Vec::new()) {
+        return None;
+    }
+    let mut r1 = ctx.rng_for(tag ^ 0x7E, id, idx);
+    let mut r2 = ctx.rng_for(tag ^ 0x7F, id, idx);
+    let mut any = false;
+    let mut choose = || r1.chance(1, 4);
+    let mut newer = || {
+        if r2.chance(1, 2) {
+            any = true;
+            1 + r2.below(3) as u32
+        } else {
+            0
+        }
+    };
+    let b = ref_encode_newer_tuples(ty, v, &mut choose, &mut newer).ok()?;
+    if any {
+        Some(b)
+    } else {
+        None
     }
 }
 
@@ -722,6 +748,14 @@ pub fn c04(ctx: &mut Ctx, acc: &mut Acc) -> i32 {
                 }
                 Err(_) => acc.count("reference_unencodable"),
             }
+            // … and tuples written by a newer writer (tuples are records: a stored version above 0 brings a header and
+            // chunks the reader skips)
+            if let Some(bytes) = newer_tuple_encoding(ctx, TAG_C04, &id, idx, &ty, &v) {
+                acc.case(Some(sig(&[id.as_bytes(), b"newer", &bytes])));
+                if check_decodes_to(ctx, acc, "C04", s, &bytes, &exp, "reference_encoding_with_newer_tuples") {
+                    acc.count("reference_encodings_with_newer_tuples_decode");
+                }
+            }
         }
         acc.count("types");
     }
@@ -915,6 +949,40 @@ pub fn c07(ctx: &mut Ctx, acc: &mut Acc) -> i32 {
                 );
             } else {
                 acc.count("exact_consumption");
+            }
+            // the same value with some of its tuples (map entries included) written by a newer writer: the chunks this
+            // reader does not know must be skipped, no more and no less
+            if let Some(nb) = newer_tuple_encoding(ctx, TAG_C07, id, idx, &ty, &v) {
+                let mut nbuf = nb.clone();
+                nbuf.extend_from_slice(&suffix);
+                acc.case(Some(sig(&[id.as_bytes(), b"newer", &nbuf])));
+                let (got, rest) = dec_val_rest(s, &nbuf);
+                let value_ok = match &got {
+                    Call::Ok(v) => canon(&ty, v).map(|c| c == exp).unwrap_or(false),
+                    _ => false,
+                };
+                if value_ok && rest == suffix.len() {
+                    acc.count("newer_tuples_exact_consumption");
+                } else {
+                    let class = if !value_ok {
+                        match &got {
+                            Call::Ok(_) => "value_mismatch".to_string(),
+                            other => other.class(),
+                        }
+                    } else if rest < suffix.len() {
+                        "consumed_too_much".to_string()
+                    } else {
+                        "consumed_too_little".to_string()
+                    };
+                    acc.violation(
+                        format!("C07|{id}|newer_tuples|{class}"),
+                        replay_decode("C07", id, &nbuf, "reference encoding with tuples of a newer writer, followed by a suffix")
+                            .with("encoding_len", J::u(nb.len() as u64))
+                            .with("suffix_len", J::u(suffix.len() as u64))
+                            .with("left_unread", J::u(rest as u64))
+                            .with("got", J::s(render_call(&got))),
+                    );
+                }
             }
             if idx == 1 && acc.samples.len() < 6 {
                 acc.sample(
